@@ -82,7 +82,7 @@ def run(tier):
     built_units = [u for u in accepted if u.name in ran]
     liftable = [u for u in built_units if sem.liftable(u)]
     if tier != "thorough":
-        liftable = [u for u in liftable if zlib.crc32(u.name.encode()) % 3 == 0]
+        liftable = [u for u in liftable if u.name[:3] not in ("ar_", "fl_", "bo_", "gq_", "gi_") or zlib.crc32(u.name.encode()) % 3 == 0]
     lifted_m = [sem.lift_method(u) for u in liftable]
     chk_m = c01.check_units(lifted_m)
     acc_m = [u for u, c in zip(lifted_m, chk_m) if c["check"]["status"] == "ok"]
@@ -103,7 +103,22 @@ def run(tier):
             n_general_ok += 1
         else:
             out.fail(f"lift:module-general|unit:{u.name}|{outcome_kind(r)}", {"program": json.dumps(sem.module_lift_general(u)), "stage": r.stage, "detail": r.detail, "stderr": r.stderr[-1500:], "tags": list(u.tags)})
-    lift_cov = {"lifted_as_method": len(acc_m), "lifted_as_method_built": len(acc_m) - len(failed_m), "lifted_into_module": len(liftable), "lifted_into_module_built": len(liftable) - len(failed_mod),
+    chain = [(u, sem.module_lift_chain(u)) for u in multi]
+    chain = [(u, f) for u, f in chain if f]
+    cres = pipe.run_many([(k, f, {"run": False}) for k, (u, f) in enumerate(chain)])
+    n_chain_ok = n_chain_domain = 0
+    for k, (u, f) in enumerate(chain):
+        r = cres[k]
+        if r.ok:
+            n_chain_ok += 1
+            n_chain_domain += 1
+        elif r.stage == "check":
+            continue  # the project is not accepted by the checker in this placement: outside the domain of the implication
+        else:
+            n_chain_domain += 1
+            out.fail(f"lift:module-chain|unit:{u.name}|{outcome_kind(r)}", {"program": json.dumps(f), "stage": r.stage, "detail": r.detail, "stderr": r.stderr[-1500:], "tags": list(u.tags)})
+    lift_cov = {"types_and_functions_in_two_modules": len(chain), "types_and_functions_in_two_modules_accepted": n_chain_domain, "types_and_functions_in_two_modules_built": n_chain_ok,
+                "lifted_as_method": len(acc_m), "lifted_as_method_built": len(acc_m) - len(failed_m), "lifted_into_module": len(liftable), "lifted_into_module_built": len(liftable) - len(failed_mod),
                 "multi_declaration_units_lifted_into_module": len(multi), "multi_declaration_units_lifted_built": n_general_ok}
     # ---------------- (b) C03 benign twins --------------------------------------------------------------------------
     twins = twin_programs(tier)
@@ -153,7 +168,7 @@ def run(tier):
     cov = {
         "evaluations": len(units) + len(twins),
         "distinct_nontrivial": len(ok_sigs),
-        "rule": "programs = every unit of the semantic corpus (see C01), the single-function units again as a method of a class and as a pub function of an imported module (quick: a third), the multi-declaration units again with all declarations in an imported module + the benign twin of every C03 rule x context case (quick: level 1 and a sixth of level 2; thorough: all of "
+        "rule": "programs = every unit of the semantic corpus (see C01), the single-function units again as a method of a class and as a pub function of an imported module (quick: a third), the multi-declaration units again with all declarations in an imported module, and with types and functions in two different imported modules + the benign twin of every C03 rule x context case (quick: level 1 and a sixth of level 2; thorough: all of "
         "level 2 and a ninth of level 3), each with a main; + 41 typed expression atoms alone, nested in 7 container forms, and in all ordered pairs within one function "
         "(packed 60 functions per program, bisected; a pack that only fails as a whole is reported as such); + assignment targets: base (local, `mut` parameter, field of `mut self`) x 11 "
         "paths of fields and indices up to four steps deep (constant and variable index) x operator (=, +=), bisected per base; domain = programs the real checker accepts; oracle = try_generate succeeds and `incan build` exits 0; "
